@@ -102,6 +102,11 @@ func (x *expander) stmt(s *Stmt) []*Stmt {
 		n.Keys = x.exprs(s.Keys)
 	case "set", "add":
 		n.Keys = x.exprs(s.Keys)
+		if s.Op == "add" && s.Ty != TInt {
+			// codegen.go emits the target twice for a non-Int `+=`: its string
+			// literals (and patterns) enter the tables a second time
+			x.exprs(s.Keys)
+		}
 		n.E = x.expr(s.E)
 	case "settime":
 		n.E = x.expr(s.E)
@@ -148,11 +153,37 @@ func (p *Program) Expand() *Core {
 // ---------------------------------------------------------------------------
 // Coq rendering (constructors of coq/Lang/Ast.v)
 
+// CoqBytes renders a byte string as (bz <len>%nat 0x<hex>) (Lang/Ast.v: bz),
+// which Coq parses much faster than a list of numbers.
+func CoqBytes(s string) string {
+	if len(s) == 0 {
+		return "(bz 0%nat 0)"
+	}
+	const hex = "0123456789abcdef"
+	b := make([]byte, 0, 2*len(s)+24)
+	b = append(b, "(bz "...)
+	b = strconv.AppendInt(b, int64(len(s)), 10)
+	b = append(b, "%nat 0x"...)
+	for i := 0; i < len(s); i++ {
+		b = append(b, hex[s[i]>>4], hex[s[i]&15])
+	}
+	return string(append(b, ')'))
+}
+
+// CoqTuple renders a list of byte strings.
+func CoqTuple(ls []string) string {
+	xs := make([]string, len(ls))
+	for i, l := range ls {
+		xs[i] = CoqBytes(l)
+	}
+	return vlib.List(xs)
+}
+
 func app(f string, a ...string) string { return "(" + f + " " + strings.Join(a, " ") + ")" }
 
-var arithCoq = map[string]string{"+": "Add", "-": "Sub", "*": "Mul", "/": "Div", "%": "Mod", "**": "Pow"}
-var bitCoq = map[string]string{"&": "BAnd", "|": "BOr", "^": "BXor", "<<": "Shl", ">>": "Shr"}
-var cmpCoq = map[string]string{"<": "Lt", ">": "Gt", "<=": "Le", ">=": "Ge", "==": "Eq", "!=": "Ne"}
+var arithCoq = map[string]string{"+": "AAdd", "-": "ASub", "*": "AMul", "/": "ADiv", "%": "AMod", "**": "APow"}
+var bitCoq = map[string]string{"&": "BAnd", "|": "BOr", "^": "BXor", "<<": "BShl", ">>": "BShr"}
+var cmpCoq = map[string]string{"<": "CLt", ">": "CGt", "<=": "CLe", ">=": "CGe", "==": "CEq", "!=": "CNe"}
 
 func exprsCoq(es []*Expr) string {
 	s := "XNil"
@@ -164,6 +195,78 @@ func exprsCoq(es []*Expr) string {
 
 func n(i int) string { return strconv.Itoa(i) }
 
+// canonical: the checker records this expression's type as one of its type
+// constants (literals, capture groups, arithmetic, inserted conversions, scalar
+// text metrics); builtin results and other metric reads carry a type variable.
+// codegen.go selects icmp/fcmp/scmp only in the first case.
+func canonical(e *Expr) bool {
+	switch e.Op {
+	case "int", "float", "str", "cap", "arith", "bit":
+		return true
+	case "conv":
+		return e.Fn == ""
+	case "get":
+		return e.M.Kind == "text" && len(e.M.Keys) == 0
+	}
+	return false
+}
+
+func (e *Expr) cmpTyped() bool {
+	if e.Typed != 0 && e.CT != TStr {
+		return e.Typed > 0
+	}
+	return canonical(e.A)
+}
+
+// SetCmpTyped records, for the comparison nodes in code-generation order, whether
+// the real compiler selected the typed comparison (icmp/fcmp) or the generic
+// cmp.  That choice depends on pointer identity of type objects inside the
+// checker (a builtin result carries a fresh copy of Int) and cannot be told
+// from the tree; it is immaterial for Int and Float operands.  String
+// comparisons keep the value derived from the tree.  Returns false if the
+// number of flags does not fit.
+func (c *Core) SetCmpTyped(flags []bool) bool {
+	var nodes []*Expr
+	var we func(e *Expr)
+	we = func(e *Expr) {
+		if e == nil {
+			return
+		}
+		for _, k := range e.Keys {
+			we(k)
+		}
+		we(e.A)
+		we(e.B)
+		we(e.C)
+		if e.Op == "cmp" {
+			nodes = append(nodes, e)
+		}
+	}
+	var ws func(ss []*Stmt)
+	ws = func(ss []*Stmt) {
+		for _, s := range ss {
+			for _, k := range s.Keys {
+				we(k)
+			}
+			we(s.E)
+			ws(s.Then)
+			ws(s.Else)
+		}
+	}
+	ws(c.Body)
+	if len(nodes) != len(flags) {
+		return false
+	}
+	for i, n := range nodes {
+		if flags[i] {
+			n.Typed = 1
+		} else {
+			n.Typed = -1
+		}
+	}
+	return true
+}
+
 // Coq renders a core expression.
 func (e *Expr) Coq() string {
 	switch e.Op {
@@ -172,7 +275,7 @@ func (e *Expr) Coq() string {
 	case "float":
 		return app("EFloat", vlib.N(FloatBits(e.F)))
 	case "str":
-		return app("EStr", n(e.Sid), vlib.Bytes(e.S))
+		return app("EStr", n(e.Sid), CoqBytes(e.S))
 	case "cap":
 		return app("ECap", n(e.Pat.Pid), n(e.Grp), e.Ty.Coq())
 	case "conv":
@@ -184,7 +287,7 @@ func (e *Expr) Coq() string {
 	case "neg":
 		return app("ENeg", e.A.Coq())
 	case "cmp":
-		return app("ECmp", cmpCoq[e.Sym], e.CT.Coq(), e.A.Coq(), e.B.Coq())
+		return app("ECmp", cmpCoq[e.Sym], e.CT.Coq(), vlib.Bool(e.cmpTyped()), e.A.Coq(), e.B.Coq())
 	case "and":
 		return app("EAnd", e.A.Coq(), e.B.Coq())
 	case "or":
@@ -235,7 +338,7 @@ func (s *Stmt) Coq() string {
 	case "settime":
 		return app("SSettime", s.E.Coq())
 	case "strptime":
-		return app("SStrptime", s.E.Coq(), n(s.Sid), vlib.Bytes(s.S))
+		return app("SStrptime", s.E.Coq(), n(s.Sid), CoqBytes(s.S))
 	case "cond":
 		if s.HasElse {
 			return app("SCondElse", s.E.Coq(), blockCoq(s.Then), blockCoq(s.Else))
@@ -253,7 +356,7 @@ func (s *Stmt) Coq() string {
 	panic("gen: coq of stmt " + s.Op)
 }
 
-var kindCoq = map[string]string{"counter": "KCounter", "gauge": "KGauge", "timer": "KTimer", "text": "KText"}
+var kindCoq = map[string]string{"counter": "MCounter", "gauge": "MGauge", "timer": "MTimer", "text": "MText"}
 
 // Coq renders the core program as a term of type Lang.Ast.prog:
 // (mkprog [mdecl...] body [regex texts] [strings]).
@@ -264,10 +367,10 @@ func (c *Core) Coq() string {
 	}
 	var rs, ss []string
 	for _, r := range c.Regexps {
-		rs = append(rs, vlib.Bytes(r))
+		rs = append(rs, CoqBytes(r))
 	}
 	for _, s := range c.Strings {
-		ss = append(ss, vlib.Bytes(s))
+		ss = append(ss, CoqBytes(s))
 	}
 	return app("mkprog", vlib.List(ds), blockCoq(c.Body), vlib.List(rs), vlib.List(ss))
 }
